@@ -480,9 +480,18 @@ func matchFilter(filter Filter, value interface{}) (bool, interface{}, error) {
 	// first we check if it's an enum, so we can recursively call matchFilter for each value
 	if filter.Enum != nil {
 		for _, enum := range filter.Enum {
+			// a value must satisfy all keywords of the filter, not just the enum
+			if filter.Const != nil && *filter.Const != enum {
+				continue
+			}
+			if filter.Type != "" && filter.Type != "string" {
+				// enum values are strings
+				continue
+			}
 			f := Filter{
-				Type:  "string",
-				Const: &enum,
+				Type:    "string",
+				Const:   &enum,
+				Pattern: filter.Pattern,
 			}
 			match, result, _ := matchFilter(f, value)
 			if match {
